@@ -14,7 +14,7 @@ import random
 
 # Typing imports
 from typing import Dict, Iterator, List, NamedTuple, Optional, Tuple, Union, overload
-from urllib.parse import parse_qsl, urlparse
+from urllib.parse import parse_qsl, urlsplit
 
 # Pycryptodome imports
 try:
@@ -235,9 +235,10 @@ def parse_raw_http(data: bytes) -> Union[HttpRequest, HttpResponse]:
         raise ValueError(f"Error in parsing request status line: {first_line!r}")
     method, uri, _version = parts
 
-    # sanitize uri bytes for `urlparse()` to avoid possible decode errors
+    # sanitize uri bytes for `urlsplit()` to avoid possible decode errors
     uri = uri.decode("ascii", errors="ignore").encode()
-    result = urlparse(uri)
+    # `urlsplit()` and not `urlparse()`: the latter cuts `;parameters` off the last path segment
+    result = urlsplit(uri)
     uri = result.path
     # parse the query as latin-1 text so that every percent-encoded byte value survives, `parse_qsl()` on bytes
     # can only return ASCII and raises UnicodeEncodeError for e.g. `?q=caf%C3%A9`
